@@ -815,8 +815,11 @@ func rulePXGroupRender(c *Ctx) []Obligation {
 				isGrp = [2]bool{false, true}
 			}
 			defA := fact3(F, `eq("default",assert<jen.token>(`+prevT+`).content)`)
+			// the default *keyword*: a literal or an identifier with that content is an operand
+			// (`switch "default" {`), and its block keeps its braces
+			kwA := fact3(F, `eq("`+c.tokenTypeConst("keywordToken")+`",assert<jen.token>(`+prevT+`).typ)`)
 			grpCase, k1 := and3(isGrp, not3(grpNil), caseA)
-			tokDef, k2 := and3(isTok, defA)
+			tokDef, k2 := and3(isTok, kwA, defA)
 			switch {
 			case (k1 && grpCase) || (k2 && tokDef):
 				isA = true
@@ -825,7 +828,7 @@ func rulePXGroupRender(c *Ctx) []Obligation {
 			}
 		}
 		if !isA && !isN {
-			t.note("every path decides whether the block follows a case group or the default keyword", false, "path %s writes %s … %s without that decision (facts %s)", traceOf(p), segsString(before), segsString(after), F)
+			t.note("every path decides whether the block follows a case group or the default keyword", false, "path %s writes %s … %s without that decision — a token whose content is `default` is the keyword only if its type says so: Lit(\"default\") before a block (`switch \"default\" {`) must keep the braces (facts %s)", traceOf(p), segsString(before), segsString(after), F)
 			continue
 		}
 		openT, closeT := "recv.open", "recv.close"
@@ -1033,6 +1036,90 @@ func (c *Ctx) ctxTerms(f *ssa.Function) (file, writer, group string) {
 	return
 }
 
+// liveCounter: g(list owner, File) int returns, on every path, the number of the owner's items that
+// are neither nil nor null, having examined the whole list and nothing else (path enumeration, loop
+// unrolled; paths cut by the iteration bound are not judged).
+func (c *Ctx) liveCounter(g *ssa.Function) bool {
+	if g == nil || g.Blocks == nil || g.Signature.Results().Len() != 1 {
+		return false
+	}
+	key := "liveCounter:" + fname(g)
+	if v, ok := c.extra(key); ok {
+		return v.(bool)
+	}
+	res := false
+	defer func() { c.setExtra(key, res) }()
+	if bt, ok := g.Signature.Results().At(0).Type().Underlying().(*types.Basic); !ok || bt.Kind() != types.Int {
+		return false
+	}
+	list := ""
+	if rv := g.Signature.Recv(); rv != nil && types.TypeString(rv.Type(), shortQual) == "*jen.Group" {
+		list = "recv.items"
+	} else if rv == nil && g.Signature.Params().Len() > 0 {
+		if sl, ok := g.Signature.Params().At(0).Type().Underlying().(*types.Slice); ok && types.TypeString(sl.Elem(), shortQual) == "jen.Code" {
+			list = "p0"
+		}
+	}
+	if list == "" {
+		return false
+	}
+	c.setExtra(key, false) // recursion guard
+	paths, _ := c.Paths(g, PXConfig{Opaque: c.stdOpaque(), MaxVisits: 4, MaxIndex: 3, MaxDepth: 2})
+	item := func(k int) string { return fmt.Sprintf("%s[%d]", list, k) }
+	judged, sawTwo := 0, false
+	for _, p := range paths {
+		if p.End != "return" || len(p.Ret) != 1 {
+			return false
+		}
+		F := p.Facts
+		live, n := 0, 0
+		for k := 0; k < 4; k++ {
+			nil3 := fact3(F, eqAtom("nil", item(k)))
+			null3 := [2]bool{}
+			seen := nil3[1]
+			for _, e := range p.Events {
+				if e.Kind == "invoke" && e.Name == c.nullName() && e.Recv != nil && e.Recv.String() == item(k) {
+					null3 = fact3(F, e.Res.String())
+					seen = true
+				}
+			}
+			if !seen {
+				break
+			}
+			n = k + 1
+			switch {
+			case nil3[1] && !nil3[0] && null3[1] && !null3[0]:
+				live++
+			case (nil3[1] && nil3[0]) || (null3[1] && null3[0]):
+			default:
+				return false
+			}
+		}
+		for _, e := range p.Events {
+			if !(e.Kind == "invoke" && e.Name == c.nullName()) {
+				return false
+			}
+		}
+		exhausted := F.Has(fmt.Sprintf("lt(%d,len(%s))", n, list), false)
+		if n == 0 {
+			exhausted = exhausted || F.Has("empty("+list+")", true)
+		}
+		if !exhausted {
+			continue // cut by the iteration bound
+		}
+		r, isN := p.Ret[0].intVal()
+		if !isN || int(r) != live {
+			return false
+		}
+		judged++
+		if live >= 2 {
+			sawTwo = true
+		}
+	}
+	res = judged > 0 && sawTwo
+	return res
+}
+
 func (c *Ctx) checkListPaths(o *obs, f *ssa.Function, sp listSpec) {
 	fn := fname(f)
 	reg := c.registerFn()
@@ -1042,16 +1129,55 @@ func (c *Ctx) checkListPaths(o *obs, f *ssa.Function, sp listSpec) {
 	if sp.writer == "" {
 		sp.writer = "p1"
 	}
-	paths, trunc := c.Paths(f, PXConfig{SkipErrEdges: true, Opaque: c.stdOpaque(), MaxVisits: 4, MaxIndex: 3, MaxDepth: 3, MaxPaths: 200000})
+	// helpers that count the items that render stay calls: their result is a term of its own
+	var counters []*ssa.Function
+	if sp.dictGuard {
+		for _, cal := range c.calleesWithin(f, 2) {
+			if c.liveCounter(cal) {
+				counters = append(counters, cal)
+			}
+		}
+	}
+	paths, trunc := c.Paths(f, PXConfig{SkipErrEdges: true, Opaque: c.stdOpaque(counters...), MaxVisits: 4, MaxIndex: 3, MaxDepth: 3, MaxPaths: 200000})
 	if trunc || len(paths) == 0 {
 		o.undecided(fn, "path enumeration", f.Pos(), "%d paths, truncated %v", len(paths), trunc)
 		return
 	}
 	c.stats["paths:"+fn] = len(paths)
+	// severalLive: "more than one item renders", as far as the path knows it from a live counter
+	// (the counter is a pure function of the list and the File, neither of which changes on a path:
+	// a path on which two of its calls disagree is infeasible)
+	severalLive := func(F Facts) (val [2]bool, infeasible bool) {
+		sawT, sawF := false, false
+		for atom, pol := range F {
+			if !strings.HasPrefix(atom, "lt(1,") {
+				continue
+			}
+			for _, cn := range counters {
+				if strings.HasPrefix(atom, "lt(1,"+fname(cn)+"(") {
+					if pol {
+						sawT = true
+					} else {
+						sawF = true
+					}
+				}
+			}
+		}
+		switch {
+		case sawT && sawF:
+			return [2]bool{}, true
+		case sawT || sawF:
+			return [2]bool{sawT, true}, false
+		}
+		return [2]bool{}, false
+	}
 	t := newTally(o, fn, f.Pos())
 	item := func(k int) string { return fmt.Sprintf("%s[%d]", sp.list, k) }
 	for _, p := range paths {
 		F := p.Facts
+		if _, infeasible := severalLive(F); infeasible {
+			continue
+		}
 		if p.End == "panic" {
 			t.note("list rendering does not panic", false, "path %s panics (%v)", traceOf(p), p.Events[len(p.Events)-1].Args)
 			continue
@@ -1193,6 +1319,9 @@ func (c *Ctx) checkListPaths(o *obs, f *ssa.Function, sp listSpec) {
 				v3 := fact3(F, `eq("values",`+strings.TrimSuffix(sp.list, ".items")+`.name)`)
 				d3 := fact3(F, "is<jen.Dict>("+item(k)+")")
 				l3 := fact3(F, "lt(1,len("+sp.list+"))")
+				if sl, _ := severalLive(F); sl[1] {
+					l3 = sl
+				}
 				okGuard := (v3[1] && !v3[0]) || (d3[1] && !d3[0]) || (l3[1] && !l3[0])
 				if !okGuard {
 					dictOK, dictWhy = false, fmt.Sprintf("item %d is rendered although it may be a Dict next to other Values items (values %v, Dict %v, several %v)", k, v3, d3, l3)
@@ -1210,7 +1339,13 @@ func (c *Ctx) checkListPaths(o *obs, f *ssa.Function, sp listSpec) {
 			// an error return of the list renderer itself: only the Dict guard may raise one
 			if len(p.Ret) > 0 && definitelyError(p.Ret[len(p.Ret)-1]) {
 				k := n - 1
-				okG := sp.dictGuard && k >= 0 && F.Has(`eq("values",`+strings.TrimSuffix(sp.list, ".items")+`.name)`, true) && F.Has("is<jen.Dict>("+item(k)+")", true) && F.Has("lt(1,len("+sp.list+"))", true)
+				sl, _ := severalLive(F)
+				okG := sp.dictGuard && k >= 0 && F.Has(`eq("values",`+strings.TrimSuffix(sp.list, ".items")+`.name)`, true) && F.Has("is<jen.Dict>("+item(k)+")", true) && (F.Has("lt(1,len("+sp.list+"))", true) || (sl[1] && sl[0]))
+				if okG {
+					// nil and null items vanish: the error may depend only on the items that render
+					// (Values(Dict{…}, nil) is Values(Dict{…}))
+					t.note("the Dict error is raised only next to another item that renders (nil and null items do not count)", sl[1] && sl[0], "path %s raises it knowing only %s: Values(Dict{…}, Null()) fails where Values(Dict{…}) renders (facts %s)", traceOf(p), "lt(1,len("+sp.list+"))", F)
+				}
 				t.note("the list renderer raises an error of its own only for a Dict next to other Values items", okG, "path %s returns %s (facts %s)", traceOf(p), p.Ret[len(p.Ret)-1], F)
 				// … and only for a Dict that would be rendered: a nil or null Dict vanishes like any other
 				// null item (adding or removing null items never changes the result)
@@ -1282,7 +1417,7 @@ func (c *Ctx) checkListPaths(o *obs, f *ssa.Function, sp listSpec) {
 	}
 	t.require("nil / null items produce nothing; every other item is rendered, preceded by the separator iff an item was rendered before (and by a newline iff multi-line)")
 	if sp.dictGuard {
-		t.require("the list renderer raises an error of its own only for a Dict next to other Values items")
+		t.require("the list renderer raises an error of its own only for a Dict next to other Values items", "the Dict error is raised only next to another item that renders (nil and null items do not count)")
 	}
 	if sp.register {
 		t.require("every package token among the items is registered before its null test, nothing else is")
@@ -3418,6 +3553,12 @@ func rulePXValidAlias(c *Ctx) []Obligation {
 		return o.list
 	}
 	t := newTally(o, fn, f.Pos())
+	resvSpecial := map[string]bool{}
+	if resv != nil {
+		if m, ok, _ := c.reservedByPaths(resv, specialNames); ok {
+			resvSpecial = m // a maintainer may as well put them into the reserved list
+		}
+	}
 	for _, p := range paths {
 		if p.End != "return" {
 			t.note("the validity predicate does not panic", false, "path %s", traceOf(p))
@@ -3463,20 +3604,53 @@ func rulePXValidAlias(c *Ctx) []Obligation {
 				}
 			}
 			exhausted := last != ""
+			// names that belong to someone else although no entry of the table says so: "C" (the cgo
+			// pseudo-package is registered without this test, cannot be renamed, and is printed for a
+			// preamble or Anon("C") without an entry of that name) and "init" (the compiler rejects
+			// `import init "p"`)
+			special := false
+			for _, w := range specialNames {
+				if e3 := fact3(F, eqAtom(strconv.Quote(w), "p0")); e3[1] && e3[0] {
+					special = true
+				}
+			}
 			if oc.Val {
 				okDot := dot[1] && dot[0]
 				okFree := dot[1] && !dot[0] && res3[1] && !res3[0] && allDiffer && exhausted
 				t.note("a name is accepted only if it is \".\", or not reserved and different from the name of every registered entry", okDot || okFree, "path %s accepts (dot %v, reserved %v, %d entries compared, all differ %v, table exhausted %v; facts %s)", traceOf(p), dot, res3, n, allDiffer, exhausted, F)
+				if !okDot {
+					for _, w := range specialNames {
+						ok := F.Has(eqAtom(strconv.Quote(w), "p0"), false) || resvSpecial[w]
+						t.note(specialKey(w), ok, "path %s accepts a name not known to differ from %q (facts %s): %s", traceOf(p), w, F, specialWhy[w])
+					}
+				}
 			} else {
-				okRej := !(dot[1] && dot[0]) && dot[1] && ((res3[1] && res3[0]) || clash)
+				okRej := !(dot[1] && dot[0]) && dot[1] && ((res3[1] && res3[0]) || clash || special)
 				t.note("a name is rejected only if it is reserved or equal to a registered name — never \".\"", okRej, "path %s rejects (dot %v, reserved %v, clash %v; facts %s)", traceOf(p), dot, res3, clash, F)
 			}
 		}
 	}
-	t.require("a name is accepted only if it is \".\", or not reserved and different from the name of every registered entry", "a name is rejected only if it is reserved or equal to a registered name — never \".\"")
+	t.require("a name is accepted only if it is \".\", or not reserved and different from the name of every registered entry", "a name is rejected only if it is reserved or equal to a registered name — never \".\"",
+		specialKey("C"), specialKey("init"))
 	t.flush()
 	c.checkArityIndependence(o, f)
 	return o.list
+}
+
+// specialNames: import names no path but their owner may carry although the import table does not
+// show them as taken.
+var specialNames = []string{"C", "init"}
+
+var specialWhy = map[string]string{
+	"C":    "ImportAlias(p, \"C\") / ImportName(p, \"C\") rendered before Qual(\"C\", …), or next to a cgo preamble or Anon(\"C\"), gives two imports named C",
+	"init": "`import init \"p\"` is rejected by the compiler (cannot import package as init)",
+}
+
+func specialKey(w string) string {
+	if w == "C" {
+		return "the name C is never accepted for a path (it belongs to the cgo pseudo-package)"
+	}
+	return "the name " + w + " is never accepted (a package cannot be imported under it)"
 }
 
 func rulePXLocalDot(c *Ctx) []Obligation {
@@ -3726,6 +3900,11 @@ func (c *Ctx) validAtStore(p *PXPath, F Facts, n, imp, nameF string) (bool, stri
 	}
 	if !resOK {
 		return false, "not known not to be a reserved word"
+	}
+	for _, w := range specialNames {
+		if !F.Has(eqAtom(strconv.Quote(w), n), false) {
+			return false, "not known to differ from " + strconv.Quote(w)
+		}
 	}
 	// scans of the import table, by range instance
 	type scan struct {
